@@ -204,13 +204,12 @@ CLAIMED = {
              "exception for any argument and hands the type-string parser a C string (call-site obligation; it did not: "
              "defect found, replayed, repaired in b3f2eba). In-line typeof: Parser.parse_type_and_quals on the shapes pycparser "
              "returns (empty text, type name, unknown identifier; with and without macros) and the refusal of a bare "
-             "'...' for nodes with and without coordinates (three more defects found, replayed, repaired: 5aa363e, "
-             "780523a, 631c6ee). The '#define' literal path is covered by a labelled bounded "
+             "'...' for nodes with and without coordinates, and the creation of a struct / union / enum with '...' as its tag "
+             "(four more defects found, replayed, repaired: 5aa363e, 780523a, 631c6ee, c7f5649). The '#define' literal path is covered by a labelled bounded "
              "stand-in on the real code (all values up to length 4/5 over a 14-letter alphabet).",
         design_ref='DESIGN.md section 4 C30',
         note="Trusted: z3; vf/pyexec.py, vf/cexec.py. Not decided: pycparser, the regex preprocessing, the rest of "
-             "cparser.py (known, reproduced and NOT reported by this check: cdef('struct ...;') raises AssertionError -- see "
-             "DESIGN.md section 0; the shapes of pycparser's output are assumptions), and the C "
+             "cparser.py (the shapes of pycparser's output are assumptions), and the C "
              "type-string parser parse_c_type.c itself (assumed contract here). The bounded stand-in is reported under "
              "bounded_stand_ins and never counted as proved.",
         technique="contract-based deductive verification (exception-escape obligations, path-wise VCs, z3) plus a "
